@@ -992,9 +992,21 @@ func (in *Interp) poolGet(fr *frame, p *Value) Value {
 	if n > 0 {
 		switch in.poolMode {
 		case "adversarial":
-			// any previously Put object, or a fresh one
-			c := in.ex.choose("pool.Get", make([]*Term, n+1))
-			pick = c - 1
+			// any previously Put object, or a fresh one; objects in the same state are interchangeable,
+			// so only one representative per distinct state is offered (symmetry reduction)
+			var reps []int
+			seen := map[string]bool{}
+			for i := n - 1; i >= 0; i-- {
+				k := stateKey(st.items[i], 4)
+				if !seen[k] {
+					seen[k] = true
+					reps = append(reps, i)
+				}
+			}
+			c := in.ex.choose("pool.Get", make([]*Term, len(reps)+1))
+			if c > 0 {
+				pick = reps[c-1]
+			}
 		default: // "lifo": most recently Put (what a single P does without GC)
 			pick = n - 1
 		}
@@ -1302,4 +1314,48 @@ func jsonExactShort(s Str) *Term {
 	}
 	ok := acceptedShort("json", len(bs), alpha, func(x string) bool { return json.Valid([]byte(x)) })
 	return memberTerm(bs, ok)
+}
+
+// stateKey renders the state reachable from v (pointers followed up to depth) for symmetry reduction.
+func stateKey(v Value, depth int) string {
+	switch x := v.(type) {
+	case *Value:
+		if x == nil {
+			return "nil"
+		}
+		if depth == 0 {
+			return "&..."
+		}
+		return "&" + stateKey(*x, depth-1)
+	case Iface:
+		if x.T == nil {
+			return "<nil>"
+		}
+		return "i(" + x.T.String() + ":" + stateKey(x.V, depth) + ")"
+	case Struct:
+		parts := make([]string, len(x))
+		for i, f := range x {
+			parts[i] = stateKey(f, depth)
+		}
+		return "{" + strings.Join(parts, ",") + "}"
+	case []Value:
+		if x == nil {
+			return "nilslice"
+		}
+		parts := make([]string, len(x))
+		for i, f := range x {
+			parts[i] = stateKey(f, depth)
+		}
+		return fmt.Sprintf("[%d/%d:%s]", len(x), cap(x), strings.Join(parts, ","))
+	case *Map:
+		if x == nil {
+			return "nilmap"
+		}
+		var parts []string
+		for _, e := range x.live() {
+			parts = append(parts, stateKey(e.k, depth)+"="+stateKey(e.v, depth))
+		}
+		return "map{" + strings.Join(parts, ",") + "}"
+	}
+	return describe(v)
 }
